@@ -100,31 +100,31 @@ def bitOp (f : Bool → Bool → Bool) (a b : List Bool) : Res (List Bool) :=
 def replicaCommitVerify (c : Ctx) (m : ReplicaCommit) : Res Unit := viewVerify c m.view
 
 /-- `CommitQC::verify` (replica_commit.rs:139-173) -/
-def commitQcVerify (c : Ctx) (qc : CommitQC) : Res Unit := do
-  replicaCommitVerify c qc.message
-  if qc.signers.length ≠ c.weights.length then Res.err "BadSignersSet" else
-  let weight ← signersWeight qc.signers c.weights
-  if weight < c.quorum then Res.err "NotEnoughWeight" else
-  indexAll qc.signers c.weights.length
-  if qc.sigOk then pure () else Res.err "BadSignature"
+def commitQcVerify (c : Ctx) (qc : CommitQC) : Res Unit :=
+  (replicaCommitVerify c qc.message).bind fun _ =>
+  if qc.signers.length ≠ c.weights.length then .err "BadSignersSet" else
+  (signersWeight qc.signers c.weights).bind fun weight =>
+  if weight < c.quorum then .err "NotEnoughWeight" else
+  (indexAll qc.signers c.weights.length).bind fun _ =>
+  if qc.sigOk then .ok () else .err "BadSignature"
 
 /-- `CommitQC::verify` with the length check removed (a mutant: shows what the check protects) -/
-def commitQcVerifyNoLenCheck (c : Ctx) (qc : CommitQC) : Res Unit := do
-  replicaCommitVerify c qc.message
-  let weight ← signersWeight qc.signers c.weights
-  if weight < c.quorum then Res.err "NotEnoughWeight" else
-  indexAll qc.signers c.weights.length
-  if qc.sigOk then pure () else Res.err "BadSignature"
+def commitQcVerifyNoLenCheck (c : Ctx) (qc : CommitQC) : Res Unit :=
+  (replicaCommitVerify c qc.message).bind fun _ =>
+  (signersWeight qc.signers c.weights).bind fun weight =>
+  if weight < c.quorum then .err "NotEnoughWeight" else
+  (indexAll qc.signers c.weights.length).bind fun _ =>
+  if qc.sigOk then .ok () else .err "BadSignature"
 
 /-- `ReplicaTimeout::verify` -/
-def replicaTimeoutVerify (c : Ctx) (m : ReplicaTimeout) : Res Unit := do
-  viewVerify c m.view
-  match m.highVote with
-  | some v => replicaCommitVerify c v
-  | none => pure ()
+def replicaTimeoutVerify (c : Ctx) (m : ReplicaTimeout) : Res Unit :=
+  (viewVerify c m.view).bind fun _ =>
+  (match m.highVote with
+    | some v => replicaCommitVerify c v
+    | none => .ok ()).bind fun _ =>
   match m.highQc with
   | some qc => commitQcVerify c qc
-  | none => pure ()
+  | none => .ok ()
 
 /-- the loop of `TimeoutQC::verify` (replica_timeout.rs:213-231); `sum` is the accumulated `Signers` -/
 def timeoutLoop (c : Ctx) (view : View) : List (ReplicaTimeout × List Bool) → List Bool → Res (List Bool)
@@ -141,18 +141,19 @@ def timeoutLoop (c : Ctx) (view : View) : List (ReplicaTimeout × List Bool) →
         (bitOp (· || ·) sum signers).bind fun sum' =>
         timeoutLoop c view rest sum'
 
+/-- the signature part of `TimeoutQC::verify` indexes every `signers` of the map with each `i < schedule.len()` -/
+def indexMap (n : Nat) : List (ReplicaTimeout × List Bool) → Res Unit
+  | [] => .ok ()
+  | (_, s) :: rest => (indexAll s n).bind fun _ => indexMap n rest
+
 /-- `TimeoutQC::verify` -/
-def timeoutQcVerify (c : Ctx) (qc : TimeoutQC) : Res Unit := do
-  viewVerify c qc.view
-  let sum ← timeoutLoop c qc.view qc.map (List.replicate c.weights.length false)
-  let weight ← signersWeight sum c.weights
-  if weight < c.quorum then Res.err "NotEnoughWeight" else
-  -- the signature part indexes every `signers` of the map with `i < schedule.len()`
-  let rec idx : List (ReplicaTimeout × List Bool) → Res Unit
-    | [] => .ok ()
-    | (_, s) :: rest => (indexAll s c.weights.length).bind fun _ => idx rest
-  idx qc.map
-  if qc.sigOk then pure () else Res.err "BadSignature"
+def timeoutQcVerify (c : Ctx) (qc : TimeoutQC) : Res Unit :=
+  (viewVerify c qc.view).bind fun _ =>
+  (timeoutLoop c qc.view qc.map (List.replicate c.weights.length false)).bind fun sum =>
+  (signersWeight sum c.weights).bind fun weight =>
+  if weight < c.quorum then .err "NotEnoughWeight" else
+  (indexMap c.weights.length qc.map).bind fun _ =>
+  if qc.sigOk then .ok () else .err "BadSignature"
 
 /-- `ProposalJustification::verify` -/
 def justificationVerify (c : Ctx) : Justification → Res Unit
